@@ -15,7 +15,8 @@ PROPS = {
               "whole root storage, returned count, caller slices and both headers compared after every operation. "
               "Non-trivial: length mismatch, window strictly inside its root, partial last frame with >=2 channels, "
               "nil/empty/uneven striped member, S != B, or write-then-read round trip. Distinct = distinct 64-bit "
-              "fingerprint of the canonical case."),
+              "fingerprint of the canonical case."
+          " Fixtures are built in three construction orders (fill-then-slice, slice-then-fill, fill through an alias); caller slices are windows of larger caller-owned arrays whose tails are compared too; channel counts reach 140; values representable in both types include short-mantissa integers up to the integer type's range and +0/-0; sweeps add 65536+k-sample buffers."),
         quick=dict(rapid=dict(checks=100000, shards=8)),
         thorough=dict(rapid=dict(checks=400000, shards=16), fuzz=dict(targets=["FuzzC01"], seconds=45)),
         assumptions=COMMON_ASSUME,
@@ -34,7 +35,8 @@ PROPS["C02"] = dict(
           "channel count overflows). Oracle: Go-slice model (off,len,cap) in frames; child header, additive composition, sharing "
           "probed by writing stamps through the child and reading through parent and root and back, capacity region read through a "
           "capacity-long reslice, parent header and root storage unchanged; invalid ranges must panic and change nothing. "
-          "Non-trivial: end beyond parent length, nesting depth >= 2, parent is an offset window, invalid range, overflowing argument."),
+          "Non-trivial: end beyond parent length, nesting depth >= 2, parent is an offset window, invalid range, overflowing argument."
+          ' Parents may end in a partial frame (samples appended before slicing) or be the result of a growing Append (capacity not a whole number of frames); after every valid Slice one frame is appended through the view and through the parent and the other header must not move.'),
     quick=dict(rapid=dict(checks=100000, shards=8)),
     thorough=dict(rapid=dict(checks=300000, shards=16), fuzz=dict(targets=["FuzzC02"], seconds=30)),
     assumptions=COMMON_ASSUME,
@@ -51,7 +53,8 @@ PROPS["C03"] = dict(
           "separate buffer. Oracle: contents = old ++ source, Len += source Len, Cap a whole number of frames >= Len, source unchanged; "
           "in place: Cap unchanged, appended samples read through the sibling view, whole root equals the model; growth: every storage "
           "the destination left is unchanged, also after stamping the destination's whole new capacity. Non-trivial: growth, in-place "
-          "append seen through another view, non-empty self-append, >=2 appends, exact fit, one frame short."),
+          "append seen through another view, non-empty self-append, >=2 appends, exact fit, one frame short."
+          ' Channel counts follow the shared distribution (1..8 mostly, up to 140); sources of floating types contain -0.0; after a growth the source is probed for write-through in both directions and an unrelated buffer of the same type grows to about the abandoned size; sweeps add wide frames (16..65 channels) and 65536+k-sample appends.'),
     quick=dict(rapid=dict(checks=60000, shards=8)),
     thorough=dict(rapid=dict(checks=200000, shards=16), fuzz=dict(targets=["FuzzC03"], seconds=30)),
     assumptions=COMMON_ASSUME,
@@ -66,7 +69,8 @@ PROPS["C04"] = dict(
           "AppendSample calls with N below, at, one above and far beyond (3*cap+5) the spare capacity. Oracle: sequence model - while Len<Cap "
           "the value lands at interleaved position Len (read back through the root alias, proving storage identity), Len+=1, Length=ceil(Len/C); "
           "at Len==Cap nothing changes; Cap constant; whole root storage compared with the model (nothing outside the window's capacity written). "
-          "Non-trivial: N crosses the capacity, window starts at a later frame, zero capacity, or partial frames with >=2 channels."),
+          "Non-trivial: N crosses the capacity, window starts at a later frame, zero capacity, or partial frames with >=2 channels."
+          ' Fixtures in three construction orders, parents that were offered samples while full, buffers produced by a growing Append of partial frames (capacity not a whole number of frames), and -0.0 among the appended values.'),
     quick=dict(rapid=dict(checks=60000, shards=8)),
     thorough=dict(rapid=dict(checks=200000, shards=16), fuzz=dict(targets=["FuzzC04"], seconds=30)),
     assumptions=COMMON_ASSUME,
@@ -83,7 +87,8 @@ PROPS["C05"] = dict(
           "source format (out-of-range floats, infinities; NaN only for floating-to-floating). Oracle: returned count = min of per-channel lengths; "
           "source root, destination root outside the common prefix and all headers unchanged (whole-storage snapshots); result k equals the same "
           "sample converted alone in a fresh 1-sample buffer (position-wise law); floating-to-floating additionally equals Go's conversion "
-          "bit for bit. Non-trivial: length mismatch, window source/destination, >=2 channels, partial frame, float beyond [-1,1]/non-finite."),
+          "bit for bit. Non-trivial: length mismatch, window source/destination, >=2 channels, partial frame, float beyond [-1,1]/non-finite."
+          ' Windows in three construction orders; destination optionally pre-filled with +0/-0; for same-type instantiations the two windows may be cut from one parent; every boundary float goes through the four float-to-float instantiations; one 65537..65541-sample case per instantiation.'),
     quick=dict(rapid=dict(checks=80000, shards=8)),
     thorough=dict(rapid=dict(checks=300000, shards=16), fuzz=dict(targets=["FuzzC05"], seconds=45)),
     assumptions=COMMON_ASSUME,
@@ -97,7 +102,8 @@ PROPS["C13"] = dict(
     rule=("Cases = element type from the 13 built-in and 13 named types x (C in 1..64, 0<=L<=K up to 4096, size-biased) x a second allocation "
           "(same or different shape). Oracle: Channels/Length/Capacity/Len=C*L/Cap=C*K, BitDepth = 8*sizeof(T) computed by the harness, every "
           "sample over Slice(0,K) zero, and independence by stamping one allocation's whole capacity and re-reading the other, both ways. "
-          "Non-trivial: L<K (zero fill beyond the length observable), named type, or >=2 channels."),
+          "Non-trivial: L<K (zero fill beyond the length observable), named type, or >=2 channels."
+          ' Sweeps cover every channel count 1..64 and mass allocations (thousands of equal-sized buffers kept alive, sizes dividing powers of two).'),
     quick=dict(rapid=dict(checks=20000, shards=8)),
     thorough=dict(rapid=dict(checks=100000, shards=16), fuzz=dict(targets=["FuzzC13"], seconds=20)),
     assumptions=COMMON_ASSUME,
@@ -112,7 +118,8 @@ PROPS["C14"] = dict(
           "per-channel length for small windows, a drawn subset for large). Oracle: view.Sample(i) = root position C*(a+i)+c computed by the harness; "
           "view.SetSample(i,v) changes exactly that root position (whole-storage diff) and reads back v through the view; Channels()=1, "
           "Length/Capacity = parent's; BufferIndex(c,i) = C*i+c. Non-trivial: C>=2 and (c != 1 or i >= 1) - what the suite's self-cancelling "
-          "comparison on channel 1 cannot see - or a parent starting at a later frame."),
+          "comparison on channel 1 cannot see - or a parent starting at a later frame."
+          ' Fixtures in three construction orders; the parent may grow (in place or to new storage) between taking the view and using it; +0/-0 are written through float views; BufferIndex is called with several channel arguments.'),
     quick=dict(rapid=dict(checks=40000, shards=8)),
     thorough=dict(rapid=dict(checks=150000, shards=16), fuzz=dict(targets=["FuzzC14"], seconds=20)),
     assumptions=COMMON_ASSUME,
@@ -128,7 +135,8 @@ PROPS["C15"] = dict(
           "buffer grown by Append), with or without a legitimate buffer already pooled; operands are non-empty sentinel-filled windows. "
           "Oracle: the call panics; afterwards both operands' whole root storage, headers and the caller's slices are unchanged; for Put the "
           "rejected buffer is intact (not cleared) and the next three Gets return allocator-shaped zeroed buffers. Every case is a mismatch "
-          "by construction; distinct = distinct (entry point, types, shapes)."),
+          "by construction; distinct = distinct (entry point, types, shapes)."
+          " Operands may end in partial frames; the caller's outer slice may have further per-channel slices behind its length."),
     quick=dict(rapid=dict(checks=40000, shards=8)),
     thorough=dict(rapid=dict(checks=150000, shards=16), fuzz=dict(targets=["FuzzC15"], seconds=20)),
     assumptions=COMMON_ASSUME,
@@ -145,7 +153,8 @@ PROPS["C20"] = dict(
           "AppendSample, Append of an empty buffer and of itself, Slice(0,0), Channel(0) size methods, pool Get/Put, ChannelLength(n,0). "
           "Oracle: no panic; sizes 0 for zero-channel/zero-capacity buffers; every read/write/conversion returns 0 and leaves caller slices, "
           "partner storage and the buffer's capacity region untouched; AppendSample/Append(empty) leave Len 0; ChannelLength(n,0) in [0,n]. "
-          "Every case is degenerate by construction; distinct = distinct (entry point, shape, types, lengths)."),
+          "Every case is degenerate by construction; distinct = distinct (entry point, shape, types, lengths)."
+          ' Zero-channel allocators with any length/capacity (also length > capacity); a zero-capacity pool after one of its buffers was grown.'),
     quick=dict(rapid=dict(checks=50000, shards=8)),
     thorough=dict(rapid=dict(checks=200000, shards=16), fuzz=dict(targets=["FuzzC20"], seconds=20)),
     assumptions=COMMON_ASSUME,
@@ -166,7 +175,8 @@ PROPS["C06"] = dict(
           "+-2^k+{-3..3}, +-1.5*2^k+{-3..3}) for every pair. rapid: 2-24 amplitudes per case, boundary-dense / uniform / clustered around a common base, "
           "biased to 32/64-bit sources. Oracle: over the amplitudes sorted ascending the result amplitudes never decrease; lowest->lowest, "
           "highest->highest, zero-amplitude->zero-amplitude. Non-trivial: depths differ, signedness differs, or a code the examples do not pin; "
-          "exhaustively enumerated points are distinct by construction."),
+          "exhaustively enumerated points are distinct by construction."
+          ' Every case is evaluated in ascending, descending and scrambled order (results must be a function of the value), embedded in buffers padded to lengths around powers of two and beyond 65536, over 1-8 channels with real partial last frames, with the source built in three construction orders.'),
     quick=dict(rapid=dict(checks=60000, shards=8)),
     thorough=dict(rapid=dict(checks=250000, shards=16), fuzz=dict(targets=["FuzzC06"], seconds=30), timeout=3600),
     assumptions=NUM_ASSUME,
@@ -180,7 +190,8 @@ PROPS["C07"] = dict(
     pkg="c07", idx=7,
     rule=("Same domain as C06. Oracle: narrowing by k bits: result amplitude in {floor(a/2^k), ceil(a/2^k)}; equal depth: result amplitude = a; "
           "widening: converting back with the conversion into every element type of the source's format returns the original amplitude. "
-          "Non-trivial: every code other than the five the examples pin; classes narrowing / equalDepth / widenAndBack / signednessDiffers."),
+          "Non-trivial: every code other than the five the examples pin; classes narrowing / equalDepth / widenAndBack / signednessDiffers."
+          ' Cases are embedded in padded buffers (lengths around powers of two and beyond 65536), over 1-8 channels with real partial last frames, with the source built in three construction orders.'),
     quick=dict(rapid=dict(checks=60000, shards=8)),
     thorough=dict(rapid=dict(checks=250000, shards=16), fuzz=dict(targets=["FuzzC07"], seconds=30), timeout=3600),
     assumptions=NUM_ASSUME,
@@ -198,7 +209,8 @@ PROPS["C08"] = dict(
           "per case from the boundary set, uniform bit patterns, uniform [-1.5,1.5], log-uniform 2^+-80, and points within 0-2 ulps of a quantisation "
           "boundary (k or k+-0.5)/full scale of the destination. Oracle: x>=1 -> highest code, x<=-1 -> lowest, 0 -> zero amplitude, otherwise "
           "|amplitude - x*FS| <= 1 decided exactly with a 128-bit product; codes non-decreasing over sorted inputs. Non-trivial: |x|>=1.5, infinite, "
-          "adjacent to +-1, destination narrower than 64 bits."),
+          "adjacent to +-1, destination narrower than 64 bits."
+          ' Every case is also evaluated in descending order and as x,+2,x,-Inf,x,1,x interleavings; float64 sources get float32-exact inputs at quantisation steps together with their float64 neighbours; cases are padded to long buffers and run over 1-8 channels.'),
     quick=dict(rapid=dict(checks=60000, shards=8)),
     thorough=dict(rapid=dict(checks=300000, shards=16), fuzz=dict(targets=["FuzzC08"], seconds=45), timeout=3600),
     assumptions=NUM_ASSUME + ["NaN inputs are excluded (result unspecified by the property)", "the verdict is for linux/amd64, where the library relies on the platform's float-to-integer conversion for in-range negative inputs to unsigned types"],
@@ -215,7 +227,8 @@ PROPS["C09"] = dict(
           "exactly; non-decreasing; |result - a/FS| <= 2^-(d-1) + 4 ulp (float64 fast path with guard band, math/big inside it and for 64-bit); for d<=32 "
           "into float64 distinct codes give distinct values and FloatAsSigned/FloatAsUnsigned back into the source type returns the code; through float32 "
           "with d<=16 the round trip is within one step. Known finding F9 is recognised by its structural predicate and excluded so the sweep continues. "
-          "Non-trivial: codes the examples do not pin, round-trip cases, depth>=16."),
+          "Non-trivial: codes the examples do not pin, round-trip cases, depth>=16."
+          ' Cases are embedded in padded buffers (the 8-bit codes at lengths 256..70001), over 1-8 channels with real partial last frames, with the source built in three construction orders.'),
     quick=dict(rapid=dict(checks=60000, shards=8)),
     thorough=dict(rapid=dict(checks=250000, shards=16), fuzz=dict(targets=["FuzzC09"], seconds=30), timeout=3600),
     assumptions=NUM_ASSUME,
@@ -229,7 +242,8 @@ PROPS["C16"] = dict(
     rule=("Cases = depth b in 1..64 x signed and unsigned 64-bit values to clip (sweep: every int64/uint64 within +-3 of 0, +-2^k and the type bounds, for "
           "all 64 depths; rapid: values around the depth's own bounds and uniform random) x a Scale[T](h,l) query (sweep: all pairs h>=l in 1..64 x the 11 "
           "integer types). Oracle (math/big): Max/Min/MaxUnsigned = 2^(b-1)-1, -2^(b-1), 2^b-1; Signed/UnsignedValue = clamp, idempotent, order-preserving "
-          "on sorted inputs; Scale = 2^(h-l) whenever that fits T. Non-trivial: any depth other than 8 (the only one the examples touch), or a Scale query."),
+          "on sorted inputs; Scale = 2^(h-l) whenever that fits T. Non-trivial: any depth other than 8 (the only one the examples touch), or a Scale query."
+          ' Scale is called for every (type,h,l) - its result is checked only when it fits - with the element types interleaved in rotating orders; a concurrent pass evaluates different depths from 16 goroutines at once.'),
     quick=dict(rapid=dict(checks=80000, shards=8)),
     thorough=dict(rapid=dict(checks=400000, shards=16), fuzz=dict(targets=["FuzzC16"], seconds=20)),
     assumptions=COMMON_ASSUME,
@@ -244,7 +258,8 @@ PROPS["C17"] = dict(
           "[0.01,10^7]) x event counts in 0..f*86400 and durations in 0..24 h, half of them moved to the argument closest to a rounding tie within a window of "
           "512. Oracle (exact math/big.Rat, f taken as the exact float64): |Duration(n) - n*10^9/f| <= 1/2 + 2^-50*exact ns, |Events(d) - f*d/10^9| <= 1/2 + "
           "2^-50*exact, both non-decreasing (n vs n+1, d vs d+1, along sorted samples), and for f<=10^6 Events(Duration(n)) == n. Non-trivial: the exact value "
-          "is not an integer (rounding direction matters); sub-class within 10^-3 of a tie."),
+          "is not an integer (rounding direction matters); sub-class within 10^-3 of a tie."
+          ' Rates next to integers (a few ulps, 2^-14..2^-45 away), rates with whole-nanosecond periods (10^9/(2^a 5^b)), spans next to 24 h, arguments solved to sit right before/after a rounding tie, and a neighbouring rate evaluated in between.'),
     quick=dict(rapid=dict(checks=60000, shards=8)),
     thorough=dict(rapid=dict(checks=300000, shards=16), fuzz=dict(targets=["FuzzC17"], seconds=20)),
     assumptions=COMMON_ASSUME + ["'plus float rounding' is taken as a relative 2^-50 of the exact value (two float64 roundings)"],
@@ -259,7 +274,8 @@ PROPS["C10"] = dict(
           "never put), Write, WriteStriped, SetSample, reslice from frame 0}; no use after Put and no double Put by construction. Oracle after every get: "
           "Channels/Length/Capacity/Len/Cap/BitDepth equal a fresh Alloc's and every sample over Slice(0,K) is zero; after every step every outstanding buffer "
           "still reads its own ownership stamp plus its own writes over its whole capacity (no shared storage). Non-trivial: a get that returned a recycled "
-          "object (pointer previously passed to Put); sub-classes recycled after dirty use, after reslice-to-shorter, with L>0, several outstanding."),
+          "object (pointer previously passed to Put); sub-classes recycled after dirty use, after reslice-to-shorter, with L>0, several outstanding."
+          " A checked-out buffer keeps all its headers (the original and every reslice from frame 0): operations and Put may go through any of them; a header that grows beyond the capacity leaves alone; 'quiet' checkouts are not stamped; floating types get -0.0 among the written values."),
     quick=dict(rapid=dict(checks=20000, shards=8)),
     thorough=dict(rapid=dict(checks=50000, shards=16), fuzz=dict(targets=["FuzzC10"], seconds=30)),
     assumptions=COMMON_ASSUME + ["sync.Pool hands a just-put object back to the same goroutine almost always; the class histogram in the evidence shows how often a recycled buffer was observed"],
@@ -277,7 +293,8 @@ PROPS["C12"] = dict(
           "capacity up to 64 frames, 7 element types; (c) thorough: native fuzzing of a byte-coded history. Oracle after every step: every live view's "
           "Len/Cap/Length/Capacity, every sample in [0,Len) and, through a capacity-long reslice, every position in [Len,Cap) equal the model's; capacity after a "
           "growing append is read from the implementation and only constrained. Non-trivial: a mutation through a view while another view of the same storage is "
-          "alive; sub-classes growing append with a live old-storage view, AppendSample into a sibling's range, slice beyond length, self-append, rejected slice."),
+          "alive; sub-classes growing append with a live old-storage view, AppendSample into a sibling's range, slice beyond length, self-append, rejected slice."
+          ' Histories also contain uneven WriteStriped calls; floating types get -0.0 stamps; Read is cross-checked against Sample after every step; histories are bounded to 65536 samples per view.'),
     quick=dict(rapid=dict(checks=8000, shards=8)),
     thorough=dict(rapid=dict(checks=60000, shards=16), fuzz=dict(targets=["FuzzC12"], seconds=60), timeout=3600),
     assumptions=COMMON_ASSUME + ["capacity chosen by a growing Append is the Go runtime's; the model reads it from the implementation (>= length, whole frames when the length is)",
@@ -293,7 +310,8 @@ PROPS["C18"] = dict(
           "and the size methods, AppendSample below and at capacity, Write/Read/WriteStriped/ReadStriped (169 type pairs, nil and uneven members), the nine "
           "conversions (169 instantiations), Append within capacity, channel view get/set, pool Get-use-Put cycle, Slice (local and escaping). Oracle: "
           "testing.AllocsPerRun(100, op) == 0, escaping Slice <= 1; everything the closure needs is allocated beforehand and headers are restored by struct "
-          "assignment. Non-trivial: frames >= 1 (the operation does work); distinct = distinct (operation, types, shape)."),
+          "assignment. Non-trivial: frames >= 1 (the operation does work); distinct = distinct (operation, types, shape)."
+          ' Also: Append within capacity when both buffers end in partial frames, pool cycle through two by-value copies of the allocator, and a 2x2048 shape in the quick sweep.'),
     quick=dict(rapid=dict(checks=4000, shards=4)),
     thorough=dict(rapid=dict(checks=30000, shards=8)),
     assumptions=COMMON_ASSUME + ["escape analysis and inlining are compiler decisions: the verdict is for go1.23.5 and the generated instantiations/shapes",
@@ -309,7 +327,8 @@ PROPS["C11"] = dict(
           "garbage collections during the run). Built with -race; no synchronisation between workers besides a start barrier and the final WaitGroup. Oracle: the race "
           "detector stays silent; every obtained buffer has the allocator's shape and reads zero over its whole capacity; each goroutine writes its (goroutine, cycle) "
           "stamp over the whole capacity, yields, and re-reads it before Put - a foreign value means two holders. Non-trivial: G>=4 with GOMAXPROCS>=2 and at least one "
-          "recycled buffer observed; also counted: by-value copies, GC during the run."),
+          "recycled buffer observed; also counted: by-value copies, GC during the run."
+          ' Allocators may be used before the by-value copies are taken; a few configurations use multi-megabyte buffers.'),
     quick=dict(rapid=dict(checks=150, shards=8), timeout=900),
     thorough=dict(rapid=dict(checks=1000, shards=12), timeout=3600),
     assumptions=COMMON_ASSUME + ["schedules are sampled by the Go scheduler, not enumerated; a failing schedule cannot be replayed deterministically (replay re-runs the case repeatedly)",
@@ -331,7 +350,8 @@ PROPS["C19"] = dict(
           "into a private destination. Writers use only their window: SetSample, Write, WriteStriped (nil members), conversion destination, Channel(c).SetSample. Built with -race; "
           "no synchronisation besides a start barrier and the WaitGroup. Oracle: race detector silent; every reader result equals the same script run sequentially beforehand; "
           "afterwards the whole buffer equals the sequential execution of the writers' scripts and the header is unchanged. Non-trivial: R>=2 and W>=2 with GOMAXPROCS>=2 "
-          "(sub-classes concurrentReaders, concurrentDisjointWriters)."),
+          "(sub-classes concurrentReaders, concurrentDisjointWriters)."
+          ' Shared buffers may end in a partial frame and reach 66002 samples; ReadStriped is also called on the shared header; per-type TestFirstUse processes make the first library calls of a process concurrent.'),
     quick=dict(rapid=dict(checks=250, shards=8), timeout=900, extra=FIRSTUSE),
     thorough=dict(rapid=dict(checks=1500, shards=12), timeout=3600, extra=FIRSTUSE),
     assumptions=COMMON_ASSUME + ["schedules are sampled by the Go scheduler, not enumerated; a failing schedule cannot be replayed deterministically (replay re-runs the case repeatedly)",
